@@ -332,7 +332,7 @@ func (c *Conn) handleMail(arg string) {
 		return
 	}
 
-	p := parser{s: strings.TrimSpace(arg)}
+	p := parser{s: trimSMTPSpace(arg)}
 	from, err := p.parseReversePath()
 	if err != nil {
 		c.writeResponse(501, EnhancedCode{5, 5, 2}, "Was expecting MAIL arg syntax of FROM:<address>")
@@ -679,7 +679,7 @@ func (c *Conn) handleRcpt(arg string) {
 		return
 	}
 
-	p := parser{s: strings.TrimSpace(arg)}
+	p := parser{s: trimSMTPSpace(arg)}
 	recipient, err := p.parsePath()
 	if err != nil {
 		c.writeResponse(501, EnhancedCode{5, 5, 2}, "Was expecting RCPT arg syntax of TO:<address>")
